@@ -483,7 +483,7 @@ def run(run, tier, replay=None):
     run.rule = ("handle: every ERROR/WARNING sequence up to length 3 x fail_on_warning in {False, True, default} (exhaustive) + random lists to length 13 of the four error classes with "
                 "explicit or default levels; generate/cli: valid documents (sink, atlas, corpus, random), their single and double node mutations (replace by wrong type / null / empty / 17 "
                 "$ref forms / 50 contradictory keyword sets, delete, duplicate, rename, mutual $ref in every component section, subtree swap), raw junk offered as .json and .yaml "
-                "(fixed hostile texts, truncations and byte mutations of valid texts, random bytes), JSON values and near-miss dicts as documents, class-name collision documents across kinds (component / inline / items / union member / additionalProperties / parameter / body / response / title x model / enum / int enum / union / array / allOf, both declaration orders, with and without literal_enums), x output directory fresh / existing / "
+                "(fixed hostile texts, truncations and byte mutations of valid texts, random bytes), JSON values and near-miss dicts as documents, documents planting a schema that fails with a detail-less error (float / bool / list / dict enum; with-detail controls) at every position whose error is re-formatted (sole / every / one-of-several request body media type, inline body property, body items, response, operation / path-item / component parameter in all four locations, component, property, allOf member and parent, union member, additionalProperties, items, ref chain), class-name collision documents across kinds (component / inline / items / union member / additionalProperties / parameter / body / response / title x model / enum / int enum / union / array / allOf, both declaration orders, with and without literal_enums), x output directory fresh / existing / "
                 "missing parent.  A case is non-trivial when the input is not a valid document that generates without diagnostics; distinct = sha1 of the case.")
     run.assumptions += [
         "C06 is partial: 'no Python exception for any byte string' is NOT a theorem; it rests on the junk/mutation exploration whose input distribution is input_histogram",
@@ -530,6 +530,12 @@ def run(run, tier, replay=None):
         cases.append(doccase(nid("k"), lab, d))
         if thorough or rng.random() < 0.35:
             cases.append(doccase(nid("k"), lab + ":literal", d, literal_enums=True))
+    # failing schemas whose error value has no detail text, planted wherever an error is later formatted into another one
+    for lab, d in mutate.detailless_docs():
+        lit = lab.split(":")[1] in ("float-enum", "bool-enum") and (thorough or rng.random() < 0.3)
+        cases.append(doccase(nid("n"), lab, d))
+        if lit:
+            cases.append(doccase(nid("n"), lab + ":literal", d, literal_enums=True))
     # junk texts
     valid_texts = [json.dumps(bases[0][1]), json.dumps(bases[-1][1], indent=1)]
     junk = []
